@@ -118,6 +118,15 @@ def run(tier, seed, model_ok, spec_ok, replay=None):
                         if "list_condition" in kw:
                             kw["list_condition"] = kw["map_condition"] = None
                 l.args[g.r.randrange(len(l.args))] = pa
+        elif g.r.random() < 0.08:
+            # a literal mapping argument keyed like the callable's own parameters ({"value": 3}, {"lower": 1, "upper": 2}):
+            # it is an argument VALUE for a one-argument callable, never a keyword mapping
+            leaves = [l for l in t.leaves() if len(l.args) == 1 and not l.kwargs and "DataType" not in l.cls
+                      and l.method in ("equal_to", "not_equal_to", "in_", "not_in", "eq", "keys_contain", "less_than", "gt")]
+            if leaves:
+                l = g.r.choice(leaves)
+                names = [nm for (m, pk, va, kw) in cg.methods[l.cls] if m == l.method for (nm, _d) in pk] or ["value"]
+                l.args[0] = {names[0]: g.scalar()} if g.r.random() < 0.7 else {"lower": 1, "upper": g.small_int()}
         normalise_cond(t)   # specs are JSON/YAML-like: no tuples, named types only (also inside data-path arguments)
         spec = sg.cond_spec(t)
         if spec is None:
